@@ -1212,8 +1212,10 @@ Section Settle.
       + destruct H as (H1 & [H2|[H2|H2]] & _); subst ev; destruct Hst; congruence.
     - intros (sn & Hin). destruct (q1 s HI t sn Hin) as (A & B & _). subst sn. destruct Hst as [E|E]; rewrite E in B; discriminate.
   Qed.
-  (** labels of the environment: the operator's command, the worker's death, the watchdog *)
-  Definition external (l : label) : bool := match l with CmdIssue | Crash | WdFail _ => true | _ => false end.
+  (** steps driven by the environment: the operator's command and its execution by the command watcher, the
+      watchdog, the worker's death.  Everything else is a step of the engine itself. *)
+  Definition operator (l : label) : bool :=
+    match l with CmdIssue | CmdBegin | Rearm _ | ContArm _ | CmdPatch | WdFail _ | Crash => true | _ => false end.
 
   Lemma remove1_head (p : Z * est) l : exists l', remove1 p (p :: l) = Some l'.
   Proof. cbn. rewrite Z.eqb_refl. assert (est_eqb (snd p) (snd p) = true) as -> by (apply est_eqb_eq; reflexivity). cbn. eexists. reflexivity. Qed.
@@ -1223,7 +1225,7 @@ Section Settle.
       watchdog or a crash is needed).  Together with [settled]: the engine can only stop in settled states. *)
   Theorem engine_not_stuck s :
     InvQ s -> quiet tasks s = false \/ ph s = PInit \/ ph s = PDown ->
-    exists l s', external l = false /\ stepq s l = Some s'.
+    exists l s', operator l = false /\ stepq s l = Some s'.
   Proof.
     intros HI H.
     destruct (evq s) as [|(t0, st) r] eqn:Eq.
